@@ -174,6 +174,74 @@ def run_regularisers(ctx: Ctx) -> None:
     _guard(ctx, "T17.nullspace", "default-spacing", fns["grad_loss"], "default spacing 2/(n-1) in (x, ...) order", th_default_spacing)
 
 
+def run_bspline_bending(ctx: Ctx) -> None:
+    """C17: 'the B-spline bending energy equals the energy of the analytic spline derivatives' — every route to it."""
+    prog = ctx.prog
+    L = "deepali.losses.functional"
+    f_bend = prog.func(L, "bending_loss")
+    f_bsb = prog.func(L, "bspline_bending_loss")
+    fS = prog.func("deepali.core.image", "spatial_derivatives")
+    cls = prog.module("deepali.losses.bspline").classes["BSplineBending"]
+    for f in (f_bend, f_bsb, fS):
+        ctx.fn(f)
+    ctx.rule("T17.bspline-bending", "on symbolic cubic B-spline coefficients (D = 2, 3; scalar and per-axis strides; with and without a spacing): "
+                                    "bending_loss(c, mode='bspline', stride=s, reduction='none') = sum over components of (sum_j (d2/dx_j2)^2 + 2 sum_{j<k} "
+                                    "(d2/dx_j dx_k)^2) of the spline derivatives spatial_derivatives(c, mode='bspline', order=2, stride=s) (whose analytic "
+                                    "values T5.bspline decides); bspline_bending_loss(c, stride=s, reduction=r) and BSplineBending(stride=s, reduction=r)(c) "
+                                    "equal it for r in none / mean / sum, 'mean' / 'sum' being the mean / sum of 'none'; the coefficients are left unchanged")
+    for D in (2, 3):
+        for stride in (1, 2, (2, 3) if D == 2 else (3, 1, 2)):
+            def th(D=D, stride=stride):
+                reset_relations()
+                facts = fresh_facts()
+                it = make_interp(ctx)
+                cshape = [1, D] + ([5, 6] if D == 2 else [4, 5, 4])
+                c = STensor.symbols("c", cshape)
+                c0 = c.clone()
+                h = [Rat.atom(f"h{j}") for j in range(D)]
+                for x in h:
+                    facts.declare_positive(x)
+                for sp in (None, STensor.from_flat(h, [D])):
+                    kw = {} if sp is None else dict(spacing=sp)
+                    # without a spacing the losses document cube units of the given tensor: 2/(n-1) per axis in (x, ...) order (T17.nullspace)
+                    ref_sp = sp if sp is not None else STensor.from_flat([Rat.of(Fraction(2, n - 1)) for n in reversed(cshape[2:])], [D])
+                    d2 = it.call(fS, c.clone(), mode="bspline", order=2, stride=stride, spacing=ref_sp)
+                    want = None
+                    seen = set()
+                    for key, t in d2.items():
+                        k = "".join(sorted(key))
+                        if k in seen:
+                            continue
+                        seen.add(k)
+                        term = t.mul(t)
+                        if len(set(key)) > 1:
+                            term = term.mul(2)
+                        want = term if want is None else want.add(term)
+                    if len(seen) != D * (D + 1) // 2:
+                        raise AnalysisError(f"spatial_derivatives(order=2) returned keys {sorted(d2)}: expected {D * (D + 1) // 2} distinct second derivatives")
+                    want = want.sum(1, keepdim=True)
+                    got = it.call(f_bend, c.clone(), mode="bspline", stride=stride, reduction="none", **kw)
+                    if got.numel() != want.numel() or not teq(got.reshape(list(want.shape)), want):
+                        return False, (f"bending_loss(mode='bspline', stride={stride}, spacing={'given' if sp is not None else 'None'}) differs from the energy "
+                                       f"of the spline's second derivatives: shape {tuple(got.shape)} vs {tuple(want.shape)}, {tstr(got)[:50]} vs {tstr(want)[:50]}")
+                    if sp is not None:
+                        continue
+                    for red, ref in (("none", want), ("sum", want.sum()), ("mean", want.mean())):
+                        r1 = it.call(f_bsb, c.clone(), stride=stride, reduction=red)
+                        if r1.numel() != ref.numel() or not teq(r1.reshape(list(ref.shape)), ref):
+                            return False, f"bspline_bending_loss(stride={stride}, reduction={red!r}) differs from the energy of the spline's second derivatives"
+                        r2 = it.call_value(it.new(cls, stride=stride, reduction=red), [c], {})
+                        if r2.numel() != ref.numel() or not teq(r2.reshape(list(ref.shape)), ref):
+                            return False, f"BSplineBending(stride={stride}, reduction={red!r})(c) differs from the energy of the spline's second derivatives"
+                    r3 = it.call(f_bsb, c.clone(), stride=stride)
+                    if not teq(r3, want.mean()):
+                        return False, f"bspline_bending_loss(stride={stride}): default reduction is not 'mean'"
+                    if not teq(c, c0):
+                        return False, f"BSplineBending(stride={stride}) modified the coefficients it was given"
+                return True, ""
+            _guard(ctx, "T17.bspline-bending", f"D={D}:stride={stride}", f_bend, f"D={D} stride={stride}", th)
+
+
 def run_lame(ctx: Ctx) -> None:
     prog = ctx.prog
     f = prog.func("deepali.losses.functional", "lame_parameters")
